@@ -309,10 +309,36 @@ theorem decimalStrToFloatDirect_unsound :
         (fun s => s.heap.take 1)
       = some [⟨[48, 49, 48, 53], true⟩] := by decide
 
-/-- accepting another spelling by normalising it IN PLACE on the caller's array: a call that used to raise on "1E3" now
-succeeds — and leaves "1e3" in the caller's text. The static check rejects the program; the run shows the changed buffer;
-and where a LATER step raises (the lengths argument unbound) the text has been rewritten all the same. -/
-theorem strToFloatFoldExponentInPlace_unsound :
+/-! #### ILLUSTRATION (not audited, not evidence for the property): what `safe` rejects
+
+The two programs below model code that does NOT exist in the package: a hypothetical patch (accept an upper-case exponent marker by
+lower-casing it in place on the caller's array) and its hypothetical repair (the same on a private copy). `safe` is only ever applied
+to hand-written `Step` programs, so a real patch of this kind is caught by the RESPELT correspondence cases of
+`harness/props/c20.py`, not by anything here; the examples only show which shape of routine the static check refuses. -/
+
+/-- (illustration, hypothetical code) `str_to_float` made to accept ANOTHER SPELLING of the exponent marker ("1E-5") by lower-casing it IN PLACE on what
+`as_encoded_array(number_text)` returned — for an already encoded argument that is the caller's own array — before the
+rows are selected (a plausible "accept what other tools write" patch). var 0 = text, var 1 = lengths -/
+def strToFloatFoldExponentInPlace (selRows value : List Bytes → Bytes) (zeroDots : Bytes → List Bytes → Bytes) : List Step :=
+  [ .view 2 0 (fun c => List.range c.length),                     -- as_encoded_array(x) of an encoded x: x itself
+    .write 2 [] (fun cur _ => cur.map (fun x => if x == 69 then 101 else x)),   -- number_text[number_text == "E"] = "e"
+    .alloc 3 [2, 1] selRows,
+    .write 3 [1] (fun cur a => zeroSigns cur (a.headD [])),
+    .write 3 [1] zeroDots,
+    .alloc 4 [3, 1, 2] value ]
+
+/-- (illustration) the same acceptance done on a private copy (`number_text = number_text.copy()` first) -/
+def strToFloatFoldExponentOnCopy (selRows value : List Bytes → Bytes) (zeroDots : Bytes → List Bytes → Bytes) : List Step :=
+  [ .alloc 2 [0] (fun a => a.headD []),                           -- .copy()
+    .write 2 [] (fun cur _ => cur.map (fun x => if x == 69 then 101 else x)),
+    .alloc 3 [2, 1] selRows,
+    .write 3 [1] (fun cur a => zeroSigns cur (a.headD [])),
+    .write 3 [1] zeroDots,
+    .alloc 4 [3, 1, 2] value ]
+
+/-- (illustration) a call that used to raise on "1E3" now succeeds — and leaves "1e3" in the caller's text: the static check rejects the
+program; the run shows the changed buffer; where a LATER step raises the text has been rewritten all the same -/
+example :
     let prog := strToFloatFoldExponentInPlace (fun a => a.headD []) (fun _ => []) (fun c _ => c)
     safe prog [] = false ∧
     (run prog { heap := [⟨[49, 69, 51], true⟩, ⟨[3], true⟩], env := [some ⟨0, [0, 1, 2]⟩, some ⟨1, [0]⟩] }).map
@@ -321,16 +347,11 @@ theorem strToFloatFoldExponentInPlace_unsound :
     ((runUntil (prog ++ [.view 9 8 (fun _ => [])]) { heap := [⟨[49, 69, 51], true⟩, ⟨[3], true⟩], env := [some ⟨0, [0, 1, 2]⟩, some ⟨1, [0]⟩] }).heap.take 1)
       = [⟨[49, 101, 51], true⟩] := by decide
 
-/-- the same acceptance on a private copy changes no caller buffer, for every heap and every argument -/
-theorem frame_str_to_float_fold_on_copy_model (selRows value : List Bytes → Bytes) (zeroDots : Bytes → List Bytes → Bytes)
-    (h : Heap) (env : Env) (s' : State)
+/-- (illustration) the variant on a private copy passes `safe`, so `frame` applies to it -/
+example (selRows value : List Bytes → Bytes) (zeroDots : Bytes → List Bytes → Bytes) (h : Heap) (env : Env) (s' : State)
     (hr : run (strToFloatFoldExponentOnCopy selRows value zeroDots) { heap := h, env := env } = some s') :
     s'.heap.take h.length = h :=
   frame _ rfl h env s' hr
-
-example : ∃ s', run (strToFloatFoldExponentOnCopy (fun a => a.headD []) (fun _ => []) (fun c _ => c))
-    { heap := [⟨[49, 69, 51], true⟩, ⟨[3], true⟩], env := [some ⟨0, [0, 1, 2]⟩, some ⟨1, [0]⟩] } = some s' ∧
-    s'.heap.take 2 = [⟨[49, 69, 51], true⟩, ⟨[3], true⟩] := ⟨_, rfl, by decide⟩
 
 /-- list-valued columns: the separator is written into the gathered field text, never into the file buffer -/
 theorem frame_parse_split_fields_model (gather value : List Bytes → Bytes) (putSep : Bytes → List Bytes → Bytes)
